@@ -2,33 +2,13 @@
    Every attempt returns (no panic, no fuel exhaustion); once count_limit reaches the largest
    count all leaves weigh the same, the sort is the identity, the merge builds the tree of the
    canonical unit-weight run (scaling + relabelling), whose height is at most ceil(log2 n) by a
-   computed sweep over n = 2 .. 704; so the depth test passes and the loop exits. *)
+   computed sweep over n = 2 .. 16383 (Tree_sweep.v); so the depth test passes and the loop exits. *)
 From Coq Require Import NArith ZArith List Lia Bool Arith Permutation.
 From V Require Import lib.Words lib.Finite gen.GenHuffman spec.PrefixCode model.Huffman
   proofs.Canonical_proofs proofs.Huffman_proofs proofs.Store_proofs proofs.Tree_proofs
-  proofs.Tree_total proofs.Tree_merge_total proofs.Tree_depth_total.
+  proofs.Tree_total proofs.Tree_merge_total proofs.Tree_depth_total proofs.Tree_sweep_core proofs.Tree_sweep.
 Import ListNotations.
 Open Scope N_scope.
-
-(* ------------------------------------------------------------------ the canonical equal-weight tree *)
-Definition canon_items (n : nat) : list qitem := repeat (1, Leaf 0%Z) n.
-
-Definition canon_ok (n : N) : bool :=
-  match amerge (N.to_nat (n - 1)) (canon_items (N.to_nat n)) [] with
-  | Some T => N.of_nat (theight T) <=? N.log2_up n
-  | None => false
-  end.
-
-(* (3) the sweep: n equal weights give a tree of height <= ceil(log2 n), n = 2 .. 704 *)
-Lemma canon_sweep : all_between canon_ok 2 703 = true.
-Proof. vm_compute. reflexivity. Qed.
-
-Lemma canon_height n T : 2 <= n -> n <= 704 ->
-  amerge (N.to_nat (n - 1)) (canon_items (N.to_nat n)) [] = Some T -> N.of_nat (theight T) <= N.log2_up n.
-Proof.
-  intros H2 H704 HT. pose proof (all_between_spec _ _ _ canon_sweep n H2 ltac:(lia)) as H.
-  unfold canon_ok in H. rewrite HT in H. apply N.leb_le. exact H.
-Qed.
 
 Lemma theight_erase t : theight (erase t) = theight t.
 Proof. induction t as [v|a IHa b IHb]; [reflexivity|]. cbn [erase theight]. rewrite IHa, IHb. reflexivity. Qed.
@@ -270,7 +250,7 @@ End CreateTotal.
 Theorem tree_total counts limit pool depth0 :
   (0 <= limit <= 15)%Z ->
   (2 <= nonzero_count counts)%nat ->
-  (length counts <= 704)%nat ->
+  2 * N.of_nat (length counts) + 1 <= 32768 ->
   N.of_nat (length counts) <= 2 ^ Z.to_N limit ->
   2 * N.of_nat (length counts) + 1 <= N.of_nat (length pool) ->
   N.of_nat (length counts) * (2 * fold_right N.max 1 counts) < 2 ^ 32 - 1 ->
@@ -284,7 +264,7 @@ Theorem tree_total counts limit pool depth0 :
     (forall i, nth i d 0 <= Z.to_N limit) /\
     kraft d = 32768.
 Proof.
-  intros Hlim Hnz H704 Hfit Hpool Hguard Hd0 Hz.
+  intros Hlim Hnz H16 Hfit Hpool Hguard Hd0 Hz.
   set (M := fold_right N.max 1 counts) in *. set (r0 := N.log2_up M).
   assert (HM1 : 1 <= M).
   { unfold M. clear. induction counts as [|x l IH]; cbn [fold_right]; lia. }
@@ -298,7 +278,6 @@ Proof.
   { rewrite supp_length by lia. rewrite firstn_all. exact Hnz. }
   assert (Hlen1 : (2 <= length counts)%nat).
   { pose proof (length_S0_le counts). lia. }
-  assert (H16 : 2 * N.of_nat (length counts) + 1 <= 32768) by lia.
   assert (Hct : clamped_total counts (2 ^ r0) < 2 ^ 32 - 1).
   { eapply N.le_lt_trans; [apply (clamped_bound counts (2 ^ r0) (2 ^ r0))|].
     - intros c Hc. pose proof (max_ge counts c Hc). fold M in H. lia.
@@ -328,4 +307,29 @@ Proof.
   - exists d, pool', r. split; [exact Hrun|]. split; [exact Hr|].
     apply (tree_partial counts limit pool depth0 d pool' r); try assumption; try lia.
     eapply N.le_lt_trans; [|exact Hct]. apply clamped_mono. apply N.pow_le_mono_r; lia.
+Qed.
+
+(* the statement C17_tree_stmt of props/C17.v, with the one hypothesis it lacks (node indices fit
+   i16, the guard C17_tree_partial already has) *)
+Theorem tree_total_stmt counts limit pool depth0 :
+  2 * N.of_nat (length counts) + 1 <= 32768 ->
+  In limit [15; 14; 5]%Z ->
+  (2 <= nonzero_count counts)%nat ->
+  N.of_nat (length counts) <= 2 ^ Z.to_N limit ->
+  2 * N.of_nat (length counts) + 1 <= N.of_nat (length pool) ->
+  N.of_nat (length counts) * (2 * fold_right N.max 1 counts) < 2 ^ 32 - 1 ->
+  length depth0 = length counts ->
+  (forall i, nth i counts 0 = 0 -> nth i depth0 0 = 0) ->
+  exists d pool' r,
+    create_huffman_tree counts (N.of_nat (length counts)) limit pool depth0 = Done (d, pool', r) /\
+    length d = length counts /\
+    (forall i, (i < length counts)%nat -> (nth i d 0 <> 0 <-> nth i counts 0 <> 0)) /\
+    (forall i, nth i d 0 <= Z.to_N limit) /\
+    kraft d = 32768.
+Proof.
+  intros H16 Hin Hnz Hfit Hpool Hguard Hd0 Hz.
+  assert (Hlim : (0 <= limit <= 15)%Z) by (cbn [In] in Hin; lia).
+  destruct (tree_total counts limit pool depth0 Hlim Hnz H16 Hfit Hpool Hguard Hd0 Hz)
+    as [d [pool' [r [Hrun [_ Hres]]]]].
+  exists d, pool', r. split; [exact Hrun|exact Hres].
 Qed.
